@@ -67,6 +67,8 @@ func BuildModel(p *Prog) (*Model, error) {
 			stop[fn] = true
 		}
 	}
+	// the diagnostics hook of the `hint` build logs through the package-level verbs: a client as well
+	hint := p.Func(p.Slog, "hintInternal")
 	m := &Model{P: p, SinkFns: map[*ssa.Function]bool{}, SinkCall: map[*ssa.Function][]*ssa.Call{}, Spine: map[*ssa.Function]bool{},
 		Sites: map[*ssa.Function][]ssa.CallInstruction{}, Callers: map[*ssa.Function][]ssa.CallInstruction{}, Gates: map[*ssa.Function]bool{}}
 	m.LevelT = p.NamedType(p.Slog, "Level")
@@ -121,7 +123,7 @@ func BuildModel(p *Prog) (*Model, error) {
 				continue
 			}
 			for _, c := range callsIn(fn) {
-				if cal := calleeOf(c); cal != nil && m.Spine[cal] && (!stop[cal] || m.SinkFns[fn]) {
+				if cal := calleeOf(c); cal != nil && m.Spine[cal] && (!stop[cal] || m.SinkFns[fn]) && cal != hint {
 					m.Spine[fn] = true
 					changed = true
 					break
